@@ -25,7 +25,7 @@ package io
 //@   ensures [C08.selection-count-exact] r >= 0 && forall(k, 0, size + 1, iff(slice[0] + k*slice[2] < min(size, slice[1]), k < r))
 
 //@ func makeHyperslab(slice, dims) returns (offset, stride, count, block)
-//@   locals i, dim
+//@   locals i@loop, dim@loop
 //@   simplify entry-ids
 //@   safety C08
 //@   fresh offset, stride, count, block
@@ -66,7 +66,7 @@ package io
 //@ types {T} = ArrayType, Float64, Float32, Int32, Uint32, Int64, Uint64, Int, Uint
 
 //@ func (H5Ref{T}).Load(h) returns (r, err)
-//@   locals f, err, ds, err, s, space, dims, err, shape, result, impl
+//@   locals f, err, ds, err, s@loop, space, dims, err, shape, result, impl
 //@   simplify entry-ids
 //@   ndmodel interface
 //@   requires ghost.hdf5lock == 0
@@ -74,7 +74,7 @@ package io
 //@   ensures [C08.lock-released] ghost.hdf5lock == 0
 
 //@ func (H5Ref{T}).loadSubset(h, ds) returns (r, err)
-//@   locals space, dims, err, shape, offset, stride, count, block, filespace, dim, size, newSize, ushape, memSpace, err, result, impl
+//@   locals space, dims, err, shape, offset, stride, count, block, filespace, dim@loop, size@loop, newSize, ushape, memSpace, err, result, impl
 //@   simplify entry-ids
 //@   ndmodel interface
 //@   requires [C08.lock-precondition] ghost.hdf5lock >= 1
@@ -118,7 +118,7 @@ package io
 //@   ensures [C08.lock-released] ghost.hdf5lock == 0
 
 //@ func (H5Ref{T}).LoadText(h) returns (r, err)
-//@   locals f, err, ds, err, dt, err, space, dims, err, maxLen, nStrings, characters, result, i, theBytes, end
+//@   locals f, err, ds, err, dt, err, space, dims, err, maxLen, nStrings, characters, result, i@loop, theBytes, end
 //@   simplify entry-ids
 //@   ndmodel interface
 //@   requires ghost.hdf5lock == 0
@@ -126,7 +126,7 @@ package io
 //@   ensures [C08.lock-released] ghost.hdf5lock == 0
 
 //@ func (H5Ref{T}).GetDatasets(h) returns (r, err)
-//@   locals f, err, g, err, n, err, result, i, name, err, objType, err
+//@   locals f, err, g, err, n, err, result, i@loop, name, err, objType, err
 //@   simplify entry-ids
 //@   ndmodel interface
 //@   requires ghost.hdf5lock == 0
@@ -135,7 +135,7 @@ package io
 //@   loop 0 invariant 0 <= i
 
 //@ func (H5Ref{T}).GetGroups(h) returns (r, err)
-//@   locals f, err, g, err, n, err, result, i, name, err, objType, err
+//@   locals f, err, g, err, n, err, result, i@loop, name, err, objType, err
 //@   simplify entry-ids
 //@   ndmodel interface
 //@   requires ghost.hdf5lock == 0
@@ -152,7 +152,7 @@ package io
 //@   ensures [C08.lock-released] ghost.hdf5lock == 0
 
 //@ func (H5Ref{T}).Exists(h) returns (r)
-//@   locals components, path, ix, comp, ref, datasets, err, groups, err
+//@   locals components, path, ix@loop, comp@loop, ref, datasets, err, groups, err
 //@   simplify entry-ids
 //@   ndmodel interface
 //@   requires ghost.hdf5lock == 0
@@ -188,6 +188,6 @@ package io
 //@   callsite CreateSimpleDataspace [C08.create-shape] len(arg0) == len(shape) && forall(i, 0, len(shape), arg0[i] == shape[i])
 
 //@ func findInSlice(strings, target) returns (r)
-//@   locals i, v
+//@   locals i@loop, v@loop
 //@   assigns nothing
 //@   loop 0 invariant -1 <= rangeindex
